@@ -142,3 +142,42 @@ func sliceAlloc() *slice {
 		modes: []lib.Mode{{Env: "struct", Opt: true}, {Env: "struct", Opt: false}, {Env: "noenv", Opt: true}},
 		maxN:  map[string]int{"quick": 6, "thorough": 8}}
 }
+
+// optim: every context in which an optimizer rewrite can fire.
+func sliceOptim() *slice {
+	rules := []*Rule{
+		Lit("1", TInt, 1), Lit("2", TInt, 2), Lit("0", TInt, 0), Lit("3", TInt, 3), Lit("7", TInt, 7), Var("I", TInt),
+		Lit("1.5", TFloat, 1.5), Var("F", TFloat),
+		Lit(`"a"`, TStr, "a"), Lit(`"b"`, TStr, "b"), Var("S", TStr),
+		Lit("nil", TNil, nil), Var("X", TAny), Var("I8", TI8), Var("U8", TU8), Var("I64", TI64),
+		Var("A", TIntArr),
+		Un("-", TInt, TInt), Un("+", TInt, TInt),
+		Bin("+", TInt, TInt, TInt), Bin("-", TInt, TInt, TInt), Bin("*", TInt, TInt, TInt), Bin("/", TInt, TInt, TInt), Bin("%", TInt, TInt, TInt),
+		Bin("**", TInt, TInt, TFloat), Bin("+", TInt, TFloat, TFloat), Bin("/", TFloat, TInt, TFloat),
+		Bin("+", TStr, TStr, TStr),
+		ArrAs(TIntArr, TInt), ArrAs(TIntArr, TInt, TInt), ArrAs(TStrArr, TStr), ArrAs(TStrArr, TStr, TStr), Arr(TInt, TStr), Arr(),
+		Bin("..", TInt, TInt, TIntArr),
+		Bin("==", TIntArr, TIntArr, TBool),
+		Len(TIntArr), Len(TStrArr), Len(TAnyArr),
+		Call("TakesI8", TI8, TInt), Call("TakesU8", TU8, TInt), Call("TakesI64", TI64, TInt), Call("TakesF32", TF32, TInt),
+		Call("TakesF64", TFloat, TInt), Call("TakesF64", TFloat, TFloat), Call("TakesAny", TAny, TInt), Call("TakesAny", TAny, TIntArr),
+		Call("TakesAnyArr", TInt, TAnyArr), Call("TakesAnyArr", TInt, TIntArr), Call("TakesArr", TInt, TIntArr),
+		Call("GetInt", TInt), Call("Id", TInt, TInt),
+		Cond(TInt), Bin(">", TInt, TInt, TBool),
+		Builtin("map", TIntArr, TInt, TIntArr), Builtin("all", TIntArr, TBool, TBool), Hash(TInt),
+	}
+	for _, o := range []string{"in", "not in"} {
+		for _, l := range []Ty{TInt, TI8, TU8, TI64, TFloat, TStr, TNil, TAny} {
+			for _, a := range []Ty{TIntArr, TStrArr, TAnyArr} {
+				if o == "not in" && a != TIntArr {
+					continue
+				}
+				rules = append(rules, Bin(o, l, a, TBool))
+			}
+		}
+	}
+	return &slice{name: "optim", g: NewGrammar(rules),
+		tops:  []NT{nt(TBool), nt(TInt), nt(TFloat), nt(TStr), nt(TIntArr), nt(TI8), nt(TU8), nt(TI64), nt(TF32), nt(TAny)},
+		modes: []lib.Mode{{Env: "struct"}, {Env: "noenv"}, {Env: "map"}},
+		maxN:  map[string]int{"quick": 5, "thorough": 6}}
+}
